@@ -7,8 +7,10 @@ from typing import Dict, List, Tuple
 
 from harness.lib.core import VERIF, Ctx, lean_lock, run_driver, shrink_ops
 from harness.extract import health as x_health
+from harness.extract import health_scan_tr as x_scan
 from harness.rigs import health as rig
 from harness.rigs import health_game as grig
+from harness.rigs import health_gamestep as gsrig
 
 MANIFEST = {
     "text": "Lean 4 proof over an executable model of one node's health bookkeeping (software actual/visible/fix countdown, "
@@ -79,7 +81,7 @@ MANIFEST = {
 }
 MODULES = ["PrimaiteModel.Lemmas.HealthEff", "PrimaiteModel.Props.C14", "PrimaiteModel.Props.C14Gen", "PrimaiteModel.Props.C14Dyn",
            "PrimaiteModel.Props.C14Inv", "PrimaiteModel.Props.C14Life", "PrimaiteModel.Props.C14Obs",
-           "PrimaiteModel.Props.C14DynTime"]
+           "PrimaiteModel.Props.C14DynTime", "PrimaiteModel.Props.C14GenScan"]
 EXE = "drv_c14"
 
 
@@ -232,6 +234,8 @@ def replay(rec: dict) -> bool:
         return not rig.timing_oracle(durs=(r["d"],))
     if r.get("oracle") == "db-restore":
         return not rig.db_restore_oracle()
+    if r.get("oracle") == "game-step":
+        return not gsrig.run_case(r["gcase"])
     if r.get("oracle") == "game":
         return False  # episodes are regenerated from the seed; re-run the check with the same VERIF_SEED
     return False
@@ -240,6 +244,7 @@ def replay(rec: dict) -> bool:
 def run(ctx: Ctx):
     with lean_lock():
         ctx.extract("Health", x_health.emit)
+        ctx.extract("HealthScan", x_scan.emit)   # the scan path, translated statement by statement (Props/C14GenScan.lean)
         ctx.prove(MODULES, exes=[EXE], clean=False, leanchecker=ctx.thorough)
     ctx.cov["rule"] = ("case = (node durations, installed software with durations/start health, folders/files, operation sequence over "
                        "requests, ticks, power events and the Python-API stand-ins for external writers); the implementation's response "
@@ -416,3 +421,18 @@ def run(ctx: Ctx):
     for bq in bad_db[:3]:
         ctx.violation({"kind": "oracle", "clause": "db-restore"}, bq["what"], {"oracle": "db-restore", **bq})
     ctx.oblige("oracle:database restore keeps the file's visible health", "oracle", not bad_db, json.dumps(bad_db[:3], default=str))
+    # the order of a game step through the REAL PrimaiteGame.step(): two real ProxyAgents, real observations, vs the model driver
+    # (ENUMERATED: every 2-step game over 13 action pairs x node scan {1,2} x folder scan {1,2}; thorough adds a strided sample of depth 3)
+    gs_n, gs_bad = gsrig.run_family(depth=2)
+    if ctx.thorough:
+        n3, bad3 = gsrig.run_family(depth=3, limit=1500)
+        gs_n, gs_bad = gs_n + n3, gs_bad + bad3
+    ctx.count("family:game-step", gs_n)
+    ctx.cov["traces_validated_against_impl"] += gs_n
+    for c0 in gs_bad[:4]:
+        ctx.violation({"kind": "model-vs-impl", "layer": "game-step", "field": c0["field"].split(":")[0]},
+                      f"real PrimaiteGame.step() differs from the proved model at game step {c0['step']} of {c0['case']['actions']} "
+                      f"(node scan {c0['case']['dn']}, folder scan {c0['case']['df']}), field {c0['field']}: impl={c0['impl']!r} model={c0['model']!r}",
+                      {"oracle": "game-step", "gcase": c0["case"], "step": c0["step"], "field": c0["field"], "impl": c0["impl"], "model": c0["model"]})
+    ctx.oblige("rig:R-health game-step family (real PrimaiteGame.step) agrees with the model", "correspondence", not gs_bad,
+               f"{len(gs_bad)} complaints in {gs_n} traces: " + json.dumps([{k: v for k, v in c.items() if k != 'case'} for c in gs_bad[:3]], default=str))
